@@ -295,8 +295,10 @@ def abstract(w, imager):
     pending = None if k is None else w.m.n - k
     if k is not None:
         w.k = k
-        if pending == 0:
-            w.last_flush = K.VNOW[0]
+        # NOTE: "nothing pending" is NOT a flush: the statement measures from the previous flush, so a
+        # write arriving on an idle store with an empty buffer > 10 s after the last COMMIT must itself
+        # be durable (seeded C18-7 restarted the age whenever the buffer was empty; an earlier version
+        # of this harness treated an empty buffer as a flush and could not see it)
     el = K.VNOW[0] - w.last_flush
     # elapsed class: exact seconds up to 12; idle periods of whole days are kept apart together
     # with their remainder (a seeded `timedelta.seconds > 10` test forgets the days)
@@ -369,8 +371,6 @@ def run_last_op(w, op, imager, u, oracle):
         kprev = k
     w.k = kprev
     pending = m.n - w.k
-    if pending == 0:
-        w.last_flush = K.VNOW[0]
     probs += oracle(w, op, pending, flush_before)
     return probs, pending
 
